@@ -201,14 +201,28 @@ def isHostChar (c : UInt8) : Bool := isAlpha c || isDigit c || c == 45 || c == 4
 def isHexColonDot (c : UInt8) : Bool :=
   isDigit c || (97 ≤ c && c ≤ 102) || (65 ≤ c && c ≤ 70) || c == 58 || c == 46
 
-/-- `<port>` = a valid port number -/
-def validPort (p : Bytes) : Bool := !p.isEmpty && p.all isDigit && decide (p.length ≤ 5) && decide (decVal p ≤ 65535)
+/-- `<port>` = a decimal port number: one or more ASCII digits (leading zeros allowed, no sign, no
+    `_`) whose value is at most 65535 — however long the digit string is -/
+def validPort (p : Bytes) : Bool := !p.isEmpty && p.all isDigit && decide (decVal p ≤ 65535)
 
-/-- `<host>` = a DNS host name or an IP address (IPv6 only in brackets, which `SplitHostPort` strips) -/
-def validHost (h : Bytes) : Bool := !h.isEmpty && (h.all isHostChar || (h.all isHexColonDot && h.contains 58))
+/-- `<host>` = not empty and without a blank or a tab (after `net.SplitHostPort` stripped the
+    brackets of an IPv6 literal).  The alphabet of DNS names is not part of the check: neither
+    `net.SplitHostPort` nor `parseProxy` restricts it. -/
+def validHost (h : Bytes) : Bool := !h.isEmpty && h.all (fun c => c != 32 && c != 9)
 
 def isKeyword (k : Bytes) : Bool :=
   k == kPROXY || k == kHTTP || k == kHTTPS || k == kSOCKS || k == kSOCKS4 || k == kSOCKS5
+
+/-- `<host>:<port>` (an IPv6 host in brackets) with a valid host and a valid port -/
+def addrWellFormed (hp : Bytes) : Bool :=
+  match splitHostPort hp with
+  | none => false
+  | some (h, p) => validHost h && validPort p
+
+/-- a parsed entry carries an address a well-formed entry can denote: none at all (`DIRECT`, the
+    empty entry), or a valid host and a valid port -/
+def Proxy.addrOk (p : Proxy) : Bool :=
+  (p.host.isEmpty && p.port.isEmpty) || (validHost p.host && validPort p.port)
 
 /-- a parsed entry is what a well-formed entry can denote: DIRECT without address, or a proxy
     keyword with a valid host and port -/
@@ -217,17 +231,22 @@ def Proxy.wellFormed (p : Proxy) : Bool :=
   | .DIRECT => p.host.isEmpty && p.port.isEmpty
   | _ => validHost p.host && validPort p.port
 
+/-- the address part of an entry text is well-formed: the entry is empty, `DIRECT`, or
+    `<word> <host>:<port>` with a valid host and port (whatever the word is) -/
+def entryAddrWellFormed (s : Bytes) : Bool :=
+  let t := trimSpace s
+  t.isEmpty || t == kDIRECT ||
+    (match cutAt 32 t with
+     | none => false
+     | some (_, hp) => addrWellFormed hp)
+
 /-- an entry text is well-formed: empty, `DIRECT`, or `<keyword> <host>:<port>` -/
 def entryWellFormed (s : Bytes) : Bool :=
   let t := trimSpace s
   t.isEmpty || t == kDIRECT ||
     (match cutAt 32 t with
      | none => false
-     | some (k, hp) =>
-       isKeyword k &&
-       (match splitHostPort hp with
-        | none => false
-        | some (h, p) => validHost h && validPort p))
+     | some (k, hp) => isKeyword k && addrWellFormed hp)
 
 end C14
 end FwdVerif
